@@ -23,7 +23,7 @@ def corpora(tier, vworker, n_gen_quick=320, n_gen_thorough=4000, include_std=Tru
     return out, ws, man
 
 
-def run_scan(res, vworker, jobs, pvs, props, extra_args=None, per_shard=None, timeout=1500, on_record=None):
+def run_scan(res, vworker, jobs, pvs, props, extra_args=None, per_shard=None, timeout=1500, on_record=None, cwd=None):
     """jobs: list of (load_dir, patterns, label). Shards patterns over NCPU workers."""
     work = vlib.mktmp("scan-")
     tasks = []
@@ -47,7 +47,7 @@ def run_scan(res, vworker, jobs, pvs, props, extra_args=None, per_shard=None, ti
             jp = os.path.join(work, tag + ".journal")
             logp = os.path.join(work, tag + ".log")
             cmd = [vworker, "scan", "-dir", d, "-patterns", pf, "-out", outp, "-journal", jp, "-pv", ",".join(pvs)] + (extra_args or [])
-            rc = vlib.run_worker(cmd, logp, timeout)
+            rc = vlib.run_worker(cmd, logp, timeout, cwd=cwd)
             if rc == 0:
                 return (outp, deaths)
             # worker died or hung: attribute to the open journal case
